@@ -171,6 +171,18 @@ def configurations():
                'rsel': rsel, 'mc': mc, 'fac': fac}
 
 
+def big_configurations():
+    """SIZE: selections naming 11..13 ports (far too many permutations for the controlled exploration): covered by the
+    real hash seeds x insertion orders only."""
+    names = [f'port{i}' for i in range(13)]
+    yield {'prov': ['hal', 'hal2'], 'req': names, 'inj': ['inj'], 'psel': ['NONE', 'ALL'], 'rsel': [names[:11], 'REMAINING'],
+           'mc': False, 'fac': 'create'}
+    yield {'prov': names[:12], 'req': ['x'], 'inj': ['inj'], 'psel': ['NONE', names[:12]], 'rsel': [['x'], 'NONE'],
+           'mc': True, 'fac': 'create'}
+    yield {'prov': ['hal'], 'req': names, 'inj': ['inj'], 'psel': ['ALL', 'NONE'], 'rsel': [names[:6], names[6:]],
+           'mc': False, 'fac': 'import'}
+
+
 def mk_select(sel, reverse=False, controlled=True):
     from dznpy.adv_shell import PortSelect, PortWildcard  # pylint: disable=import-outside-toplevel
     if isinstance(sel, str):
@@ -389,7 +401,7 @@ from vf import core; core.import_guard()
 from vf.checks import c08
 out = {"orders": [], "results": {}}
 for rev in (False, True):
-    for conf in c08.configurations():
+    for conf in list(c08.configurations()) + list(c08.big_configurations()):
         names = [n for sel in conf["psel"] + conf["rsel"] if not isinstance(sel, str) for n in sel]
         s = set()
         for n in (reversed(names) if rev else names): s.add(n)
@@ -631,6 +643,9 @@ def explore(ctx):
     for part in pmap(work, jobs):
         expected.update(getattr(part, 'results', {}))
         ctx.merge(part)
+    # selections of 11..13 names: the reference is one uncontrolled in-process build
+    for conf in big_configurations():
+        expected[json.dumps(conf, sort_keys=True)] = [(n, h) for n, _c, h in run_build(conf, controlled=False)]
     # conformance of the seam with the real nondeterminism
     seeds = list(range(64 if th else 8))
     orders = set()
